@@ -5,6 +5,80 @@ use rand::RngCore;
 use rand_xoshiro::rand_core::SeedableRng;
 use rand_xoshiro::Xoroshiro128StarStar;
 
+/// The family of seedable generators a shipped runner / binding may build from its `seed` argument.  Kind 0 is what the
+/// pinned tree uses.  No property names the algorithm, so a comparison "shipped runner == documented loop driven by
+/// the generator built from the seed" that fails with kind 0 is retried with every other kind before it is reported
+/// (a swap of the algorithm keeps C09 / C18 true and must not raise an alarm).
+pub const GEN_NAMES: [&str; 16] = [
+    "Xoroshiro128StarStar", "Xoroshiro128PlusPlus", "Xoroshiro128Plus", "Xoshiro256StarStar", "Xoshiro256PlusPlus", "Xoshiro256Plus",
+    "Xoshiro512StarStar", "Xoshiro512PlusPlus", "Xoshiro512Plus", "SplitMix64", "Xoshiro128StarStar", "Xoshiro128PlusPlus",
+    "Xoroshiro64StarStar", "StdRng", "SmallRng", "ChaCha8Rng",
+];
+pub enum Gen {
+    K0(Xoroshiro128StarStar),
+    K1(rand_xoshiro::Xoroshiro128PlusPlus),
+    K2(rand_xoshiro::Xoroshiro128Plus),
+    K3(rand_xoshiro::Xoshiro256StarStar),
+    K4(rand_xoshiro::Xoshiro256PlusPlus),
+    K5(rand_xoshiro::Xoshiro256Plus),
+    K6(rand_xoshiro::Xoshiro512StarStar),
+    K7(rand_xoshiro::Xoshiro512PlusPlus),
+    K8(rand_xoshiro::Xoshiro512Plus),
+    K9(rand_xoshiro::SplitMix64),
+    K10(rand_xoshiro::Xoshiro128StarStar),
+    K11(rand_xoshiro::Xoshiro128PlusPlus),
+    K12(rand_xoshiro::Xoroshiro64StarStar),
+    K13(rand::rngs::StdRng),
+    K14(rand::rngs::SmallRng),
+    K15(rand_chacha::ChaCha8Rng),
+}
+macro_rules! gen_dispatch {
+    ($s:expr, $g:ident => $e:expr) => {
+        match $s {
+            Gen::K0($g) => $e, Gen::K1($g) => $e, Gen::K2($g) => $e, Gen::K3($g) => $e, Gen::K4($g) => $e, Gen::K5($g) => $e,
+            Gen::K6($g) => $e, Gen::K7($g) => $e, Gen::K8($g) => $e, Gen::K9($g) => $e, Gen::K10($g) => $e, Gen::K11($g) => $e,
+            Gen::K12($g) => $e, Gen::K13($g) => $e, Gen::K14($g) => $e, Gen::K15($g) => $e,
+        }
+    };
+}
+impl Gen {
+    pub fn new(kind: usize, seed: u64) -> Gen {
+        match kind {
+            0 => Gen::K0(SeedableRng::seed_from_u64(seed)),
+            1 => Gen::K1(SeedableRng::seed_from_u64(seed)),
+            2 => Gen::K2(SeedableRng::seed_from_u64(seed)),
+            3 => Gen::K3(SeedableRng::seed_from_u64(seed)),
+            4 => Gen::K4(SeedableRng::seed_from_u64(seed)),
+            5 => Gen::K5(SeedableRng::seed_from_u64(seed)),
+            6 => Gen::K6(SeedableRng::seed_from_u64(seed)),
+            7 => Gen::K7(SeedableRng::seed_from_u64(seed)),
+            8 => Gen::K8(SeedableRng::seed_from_u64(seed)),
+            9 => Gen::K9(SeedableRng::seed_from_u64(seed)),
+            10 => Gen::K10(SeedableRng::seed_from_u64(seed)),
+            11 => Gen::K11(SeedableRng::seed_from_u64(seed)),
+            12 => Gen::K12(SeedableRng::seed_from_u64(seed)),
+            13 => Gen::K13(SeedableRng::seed_from_u64(seed)),
+            14 => Gen::K14(SeedableRng::seed_from_u64(seed)),
+            _ => Gen::K15(SeedableRng::seed_from_u64(seed)),
+        }
+    }
+}
+impl RngCore for Gen {
+    fn next_u32(&mut self) -> u32 {
+        gen_dispatch!(self, g => g.next_u32())
+    }
+    fn next_u64(&mut self) -> u64 {
+        gen_dispatch!(self, g => g.next_u64())
+    }
+    fn fill_bytes(&mut self, dest: &mut [u8]) {
+        gen_dispatch!(self, g => g.fill_bytes(dest))
+    }
+    fn try_fill_bytes(&mut self, dest: &mut [u8]) -> Result<(), rand::Error> {
+        self.fill_bytes(dest);
+        Ok(())
+    }
+}
+
 pub fn splitmix(x: &mut u64) -> u64 {
     *x = x.wrapping_add(0x9E37_79B9_7F4A_7C15);
     let mut z = *x;
@@ -105,7 +179,7 @@ pub type Draw = (u8, u64);
 /// The generator handed to bourse. Wraps the very `Xoroshiro128StarStar::seed_from_u64(seed)` the
 /// shipped runners use; optionally scripted (steering) or faulted (boundary injections).
 pub struct SeamRng {
-    inner: Xoroshiro128StarStar,
+    inner: Gen,
     /// values to return from the next `next_u32` calls instead of the inner stream (steering)
     pub script: std::collections::VecDeque<u32>,
     /// sparse injections: absolute draw index -> boundary class (0: zero, 1: all ones, 2: one, 3: top bit)
@@ -118,8 +192,12 @@ pub struct SeamRng {
 
 impl SeamRng {
     pub fn passthrough(seed: u64) -> Self {
+        Self::passthrough_kind(seed, 0)
+    }
+    /// the same seam around another member of the generator family (see `Gen`)
+    pub fn passthrough_kind(seed: u64, kind: usize) -> Self {
         SeamRng {
-            inner: Xoroshiro128StarStar::seed_from_u64(seed),
+            inner: Gen::new(kind, seed),
             script: Default::default(),
             inject: Default::default(),
             draws: 0,
